@@ -274,6 +274,141 @@ def eval_cases(ck, name, cases, sids):
     return mism, viol, out
 
 
+def coq_sched(sched):
+    out, run = [], None          # run = [who, n] of plain OOk entries
+    def flush():
+        nonlocal run
+        if run:
+            out.append("repeat (%s, OOk) %d%%nat" % (coq_bool(run[0]), run[1]))
+            run = None
+    for e in sched or []:
+        w = bool(e["w"] & 1)
+        kind = e.get("kind") or ""
+        if kind == "":
+            if run and run[0] == w:
+                run[1] += 1
+            else:
+                flush()
+                run = [w, 1]
+            continue
+        flush()
+        o = {"before": "OBefore", "after": "OAfter"}.get(kind) or "OPartial [%s]" % "; ".join(coq_bool(b) for b in e.get("skip") or [])
+        out.append("[(%s, %s)]" % (coq_bool(w), o))
+    flush()
+    return " ++ ".join(out) if out else "[]"
+
+
+def eval_conc(ck, name, cases, sids):
+    cats, defs, items = {}, [], []
+    for c in cases:
+        cloud = c["cfg"]["cloud"]
+        hosts = []
+        for h in c["final"]["hosts"]:
+            key = json.dumps([h["objs"], h["rows"]], sort_keys=True)
+            if key not in cats:
+                cats[key] = "cat_%d" % len(cats)
+                defs.append("Definition %s : cat := %s." % (cats[key], coq_cat(h)))
+            hosts.append(cats[key])
+        log = "; ".join("(%s, %s)" % (coq_bool(bool(e["w"])), coq_event(e, sids, cloud)) for e in c["log"])
+        after = ["{| or_os := []; or_ok := %s; or_items := %s |}" % (coq_bool(r["ok"]), coq_log(r["log"], sids, cloud, sids.ids_of)) for r in c["after"]]
+        items.append("{| cc_id := %d%%Z; cc_cfg := %s; cc_nhosts := %d%%nat; cc_sched := %s;\n     cc_log := [%s];\n     cc_pnil := %s; cc_qnil := %s; cc_after := [%s];\n"
+                     "     cc_hosts := [%s]; cc_ver_tbl := %s; cc_vd_tbl := %s; cc_vers := %s |}" % (
+                         c["id"], coq_cfg(c["cfg"]), max(1, c.get("nhosts") or 1), coq_sched(c["sched"]), log, coq_bool(c["nil"][0]), coq_bool(c["nil"][1]),
+                         "; ".join(after), "; ".join(hosts), coq_bool(c["final"]["ver_tbl"]), coq_bool(c["final"]["vd_tbl"]), coq_vers(c["final"]["vers"])))
+    txt = ("From Coq Require Import List String NArith ZArith Bool.\n"
+           "From Qryn Require Import model.Migrate gen.GenScripts.\nImport ListNotations.\n"
+           "Open Scope string_scope.\nOpen Scope list_scope.\nOpen Scope N_scope.\n"
+           + "\n".join(defs) + "\n"
+           "Definition cases : list (ccase) := [\n  " + ";\n  ".join(items) + "].\n"
+           "Definition M := Eval vm_compute in conc_mismatches gen_scripts gen_oncluster gen_sids cases.\nPrint M.\n"
+           "Definition V := Eval vm_compute in conc_violations gen_scripts gen_oncluster gen_sids cases.\nPrint V.\n")
+    rc, out = ck.coq_eval(name, txt)
+    if rc != 0:
+        return None, None, out
+    flat = " ".join(out.split())
+    m = re.search(r"M = (.*?) : list Z", flat)
+    v = re.search(r"V = (.*?) : list \(Z \* N\)", flat)
+    if not m or not v:
+        return None, None, out
+    mism = [int(x) for x in re.findall(r"-?\d+", m.group(1))]
+    viol = [(int(a), int(b)) for a, b in re.findall(r"\((-?\d+)(?:%Z)?, (\d+)(?:%N)?\)", v.group(1))]
+    return mism, viol, out
+
+
+CONC_CODE = {1: "the merged call log of the two starters breaks file order / never-ahead, or a script whose version is recorded runs again",
+             2: "after the concurrent starters an undisturbed start does not complete",
+             4: "after the concurrent starters the completed initialisation ends in a different schema / versions than an uninterrupted one",
+             8: "a start on the up-to-date database executed migration statements",
+             16: "a process wrote a version without having just seen the script of that version complete"}
+# what the recorded finding `concurrent-starters` covers: a starter holding a stale version re-runs scripts the other one
+# has passed (codes 1, 2, 4); a process recording a version it did not see complete (16) or a start on the
+# up-to-date database running scripts (8) is never excused
+CONC_KNOWN_BITS = 1 | 2 | 4
+
+
+def concurrent_part(ck, sids, seed):
+    """two concurrent starters: generated schedules + the corpus witness, compared with Migrate.conc_run and judged"""
+    files = []
+    co_out = os.path.join(ck.work, "conc.jsonl")
+    rc, out = ck.go_run("migrate", ["--seed", seed, "--conc", ck.n(40, 600), "--out", co_out])
+    if ck.obligation("harness migrate ran (two concurrent starters, generated schedules)", rc == 0, out[-1500:]):
+        files.append(co_out)
+    for p in sorted(glob.glob(os.path.join(VERIF, "corpus", "C18", "conc_*.jsonl"))):
+        o = os.path.join(ck.work, "corpus_" + os.path.basename(p))
+        rc, out = ck.go_run("migrate", ["--conc-cases", p, "--out", o])
+        if ck.obligation("harness migrate ran (corpus %s)" % os.path.basename(p), rc == 0, out[-1500:]):
+            files.append(o)
+    cases = []
+    for f in files:
+        for l in open(f):
+            if l.strip():
+                c = json.loads(l)
+                c["id"] = len(cases)
+                c["sched"] = c.get("sched") or []
+                cases.append(c)
+    if not cases:
+        return cases
+    mism, viol = [], []
+    shard = 150
+    for k in range(0, len(cases), shard):
+        m, v, out = eval_conc(ck, "C18_%s_%d_conc_%d" % (vcheck.repo_tag(), os.getpid(), k // shard), cases[k:k + shard], sids)
+        if m is None:
+            ck.obligation("concurrent cases evaluated inside Coq", False, out[-1500:])
+            return cases
+        mism += m
+        viol += v
+    panics = [c for c in cases if any(str(e).startswith("panic") for e in c["errs"])]
+    ck.obligation("correspondence: model conc_run (merged call log, return values, the solo starts afterwards, final hosts, versions) = two real "
+                  "maintenance.Update goroutines under the same schedule on %d cases" % len(cases), not mism and not panics,
+                  "mismatching case ids: %s; panics: %s" % (mism[:10], [c["id"] for c in panics][:5]))
+    known = ck.known_findings()
+    new_viol, excused = [], 0
+    for cid, bits in viol:
+        if bits & ~CONC_KNOWN_BITS == 0 and "concurrent-starters" in known:
+            excused += 1
+        else:
+            new_viol.append((cid, bits))
+    if excused:
+        ck.report_known("concurrent-starters", known["concurrent-starters"])
+    ck.extra["concurrent"] = {"cases": len(cases), "histories_showing_the_known_finding": excused,
+                              "stuck_for_good": sum(1 for _, b in viol if b & 2), "schema_differs": sum(1 for _, b in viol if b & 4)}
+    ck.obligation("two concurrent starters: every process records a version only after it saw that script complete, a start on the up-to-date "
+                  "database runs nothing (the other clauses are the recorded finding concurrent-starters)", not new_viol,
+                  "violating (case id, code bits): %s" % new_viol[:10])
+    if new_viol:
+        cid, bits = min(new_viol, key=lambda x: len(cases[x[0]]["sched"]))
+        c = cases[cid]
+        ck.violation({"property": "C18", "kind": "; ".join(t for b, t in CONC_CODE.items() if bits & b), "cfg": c["cfg"], "nhosts": c.get("nhosts"),
+                      "mode": c.get("class", ""), "sched": c["sched"], "returned_nil": c["nil"], "errs": c["errs"],
+                      "last_calls": c["log"][-4:], "final_versions": c["final"]["vers"],
+                      "replay": "write {\"cfg\":...,\"nhosts\":...,\"sched\":...} of this file as one JSON line and run: harness migrate --conc-cases <file>"})
+    elif mism:
+        c = min((cases[i] for i in mism), key=lambda c: len(c["sched"]))
+        ck.violation({"property": "C18", "kind": "model/implementation disagree on two concurrent starters; the oracle still accepts what was observed",
+                      "cfg": c["cfg"], "sched": c["sched"], "broken": "correspondence Migrate.conc_run vs two maintenance.Update goroutines"}, no_input=True)
+    return cases
+
+
 SPEC_CODE = {1: "a version was recorded ahead of the scripts applied (e.g. for a script whose execution failed or completed on some hosts only), or a script was sent out of file order, "
                 "or a script whose version is already recorded was run again, or a statement that is in none of the streams took effect",
              2: "a start without failures did not complete (initialisation stays broken after the earlier failure)",
@@ -515,6 +650,8 @@ def run(ck):
         ck.violation({"property": "C18", "kind": "model/implementation disagree; the property's oracle still accepts all observed histories",
                       "cfg": c["cfg"], "faults": c["faults"], "broken": "correspondence Migrate.update vs maintenance.Update"}, no_input=True)
 
+    conc_cases = concurrent_part(ck, sids, ck.seed)
+
     # coq/gen is shared by all runs: make sure no concurrent run (other VERIF_REPO) replaced the lists meanwhile
     now = json.load(open(os.path.join(vcheck.COQ, "gen", "GenScripts.json")))
     ck.obligation("coq/gen/GenScripts.* still describe this repository at the end of the run", now.get("streams") == gen.get("streams"),
@@ -532,14 +669,19 @@ def run(ck):
                 if f and f["n"] < len(r["log"]):
                     e = r["log"][f["n"]]
                     points.add((json.dumps(c["cfg"], sort_keys=True), e["t"], e.get("k", 0), json.dumps(e.get("stmt")), e.get("v", 0), f["kind"]))
-    ck.coverage["evaluations"] += len(cases)
+    for c in conc_cases:
+        hist[c["class"]] = hist.get(c["class"], 0) + 1
+        distinct.add(json.dumps([c["cfg"], c["sched"]], sort_keys=True))
+    ck.coverage["evaluations"] += len(cases) + len(conc_cases)
     ck.coverage["distinct_nontrivial"] += len(distinct)
     ck.coverage["rule"] += ("cases = configuration (single / cloud / clustered / cloud+clustered, rarely the two inconsistent mixes; 1-3 hosts when clustered) x 0..5 interrupted starts, "
                             "each failing one database call (drawn among the calls that start would really make; 60% after the effect, 40% before; with several hosts 40% "
                             "'completed on a random subset of the hosts, caller gets the ON CLUSTER timeout'), then two undisturbed starts; "
                             "plus, per clustered configuration, one in three (thorough: every) script statements of a first start cut short on a random host subset, half of them again at the resume statement; "
                             "thorough tier adds every call x {before, after} of a first start in the four main configurations. "
-                            "non-trivial = at least one injected failure; distinct by (configuration, failure list). ")
+                            "concurrent/* = two maintenance.Update goroutines on one fake database under a generated schedule (stale reader / lockstep / bursts, "
+                            "1 call in 400 failing), killed when the schedule ends, then two undisturbed solo starts. "
+                            "non-trivial = at least one injected failure or a concurrent schedule; distinct by (configuration, failure list / schedule). ")
     ck.extra["input_distribution"] = hist
     ck.extra["distinct_failure_points_hit"] = len(points)
     ck.add_samples([{"cfg": c["cfg"], "faults": c["faults"], "returned_nil": [r["ok"] for r in c["runs"]],
